@@ -2,6 +2,7 @@ package syncx
 
 import (
 	"context"
+	"errors"
 	"fmt"
 	"math/bits"
 	"testing"
@@ -23,6 +24,9 @@ type c15Case struct {
 	NotFound bool `json:"not_found,omitempty"`
 	// Persist: every fetch from the FailAt-th on fails (the getter lost the headers for good)
 	Persist bool `json:"persist,omitempty"`
+	// SoftAdj: the header type reports a *soft* failure when the subjective head verifies the header
+	// right above it (a type is free to do so); no verifiable path to any candidate exists then
+	SoftAdj bool `json:"soft_adjacent,omitempty"`
 }
 
 func (c c15Case) String() string {
@@ -42,6 +46,8 @@ type c15Out struct {
 	redone bool
 	reErr  error
 	rePan  string
+	// softAdjCalls: how often the adjacent soft failure was actually reported
+	softAdjCalls int
 }
 
 func c15Exec(t *testing.T, run *vk.Run, c c15Case) (o c15Out, ok bool) {
@@ -76,6 +82,18 @@ func c15Exec(t *testing.T, run *vk.Run, c c15Case) (o c15Out, ok bool) {
 				return &getterResp{err: errGetter}
 			}
 			return nil
+		}
+		if c.SoftAdj {
+			subj := w.C[c.S]
+			subj.VerifyHook = func(tr, u *vk.H) error {
+				if u.Ht == tr.Ht+1 {
+					o.softAdjCalls++
+					return &header.VerifyError{Reason: errSoftAdjacent, SoftFailure: true}
+				}
+				plain := *tr
+				plain.VerifyHook = nil
+				return plain.Verify(u)
+			}
 		}
 		cand := w.C[c.S+c.D]
 		if c.Forged {
@@ -125,7 +143,7 @@ func c15Exec(t *testing.T, run *vk.Run, c c15Case) (o c15Out, ok bool) {
 func TestC15(t *testing.T) {
 	run := vk.NewRun("C15", "model_checking")
 	defer run.Finish()
-	run.SetRule("real Syncer gossip verifier with a real store: every (subjective head in {1,5}, distance d = 2..D, trust range R = 1..d and unlimited, candidate honest | forged, failing intermediate fetch k = none | 1..(number of fetches of the fault-free run), failing with a generic error | ErrNotFound, once | for every fetch from k on) is delivered; oracle: accept iff honest and no needed fetch failed, refusal is an error and the candidate is neither pending nor stored, only chain headers are promoted, fetches <= d*(floor(log2 d)+2); distinct = (d, R, forged, fault position class, verdict)")
+	run.SetRule("real Syncer gossip verifier with a real store: every (subjective head in {1,5}, distance d = 2..D, trust range R = 1..d and unlimited, candidate honest | forged, failing intermediate fetch k = none | 1..(number of fetches of the fault-free run), failing with a generic error | ErrNotFound, once | for every fetch from k on) is delivered; plus a header type reporting a soft failure for the header adjacent to the subjective head (d = 1..6, R in {1, 2, unlimited}): terminates within the bound and refuses; oracle: accept iff honest and no needed fetch failed, refusal is an error and the candidate is neither pending nor stored, only chain headers are promoted, fetches <= d*(floor(log2 d)+2); distinct = (d, R, forged, fault position class, verdict)")
 	run.Assume("the getter is trusted and honest apart from injected fetch errors")
 
 	var rc c15Case
@@ -159,6 +177,15 @@ func TestC15(t *testing.T) {
 			}
 		}
 	}
+	nPlain := len(bases)
+	for _, s := range []uint64{1, 5} {
+		for d := uint64(1); d <= 6; d++ {
+			for _, r := range []uint64{1, 2, 0} {
+				bases = append(bases, c15Case{S: s, D: d, R: r, SoftAdj: true})
+			}
+		}
+	}
+	_ = nPlain
 	q := vk.NewWorkQueue(len(bases))
 	vk.Shards(t, vk.NumShards(), func(t *testing.T, shard int) {
 		for {
@@ -177,6 +204,9 @@ func TestC15(t *testing.T) {
 			}
 			run.AddEval(1)
 			c15Check(run, b, o, -1)
+			if b.SoftAdj {
+				continue
+			}
 			if i%41 == 0 {
 				run.Sample(b.String() + fmt.Sprintf(" -> fetches=%d err=%v", o.fetches, o.err != nil))
 			}
@@ -204,7 +234,13 @@ func TestC15(t *testing.T) {
 	}
 }
 
+var errSoftAdjacent = errors.New("vk: header type rejects the adjacent header softly")
+
 func c15Check(run *vk.Run, c c15Case, o c15Out, baseFetches int) {
+	if c.SoftAdj {
+		c15CheckSoftAdj(run, c, o)
+		return
+	}
 	fault := "none"
 	if c.FailAt != 0 {
 		fault = "fetch-error"
@@ -278,6 +314,40 @@ func c15Check(run *vk.Run, c c15Case, o c15Out, baseFetches int) {
 		}
 		if last < c.S+c.D {
 			viol("accepted-head-not-target", "accepted but neither pending nor stored (store up to %d)", last)
+		}
+	}
+}
+
+// c15CheckSoftAdj: the type reports the header right above the subjective head as a soft failure. Whatever the
+// distance, the search must terminate within the fetch bound, and a candidate whose path ends in a failed
+// adjacent verification is refused and not promoted.
+func c15CheckSoftAdj(run *vk.Run, c c15Case, o c15Out) {
+	feat := fmt.Sprintf("forged=%v,soft-adjacent,d=%d", c.Forged, c.D)
+	viol := func(clause, format string, a ...any) {
+		run.Violate("C15/"+clause+"/"+feat, c, "%s: %s", c, fmt.Sprintf(format, a...))
+	}
+	run.Distinct(fmt.Sprintf("d=%d,R=%d,%s|accepted=%v|hook=%v", c.D, c.R, feat, o.err == nil, o.softAdjCalls > 0))
+	if !o.done {
+		viol("does-not-terminate", "the verifier did not return within a minute of virtual time (%d fetches so far)", o.fetches)
+		return
+	}
+	if o.pan != "" {
+		viol("panic", "%s", o.pan)
+		return
+	}
+	bound := int(c.D)*(bits.Len64(c.D)+1) + 2
+	if o.fetches > bound {
+		viol("too-many-fetches", "%d intermediate fetches for distance %d (bound %d): the search does not end on a soft adjacent failure", o.fetches, c.D, bound)
+	}
+	if o.softAdjCalls == 0 {
+		return // the path never reached the adjacent header (trust range covers the distance)
+	}
+	if o.err == nil {
+		viol("unverifiable-head-accepted", "accepted although the adjacent verification on the only path failed")
+	}
+	for _, p := range o.pending {
+		if p == o.cand {
+			viol("refused-head-became-target", "the refused candidate is in the pending set")
 		}
 	}
 }
